@@ -68,6 +68,17 @@ Theorem C16_fill : forall n lst, NoDup lst -> forall elected, (length elected <=
   elected ++ firstn (n - length elected) (filter (fun c => negb (cmem c elected)) lst).
 Proof. exact fill_spec. Qed.
 
+(* bracketers (coalition size / candidate property): a candidate passes exactly when the selector configured for its
+   bracket value passes it - no selector configured for that bracket means everybody in it passes *)
+Theorem C16_bracketer : forall evals default bracket votes c,
+  In c (bracket_eval evals default bracket votes) <->
+  exists v, In (c, v) votes /\
+    match bracket_pick evals default (dget_or bracket c 1%Z) with
+    | Some s => In c (sel_eval s votes)
+    | None => True
+    end.
+Proof. exact bracket_eval_spec. Qed.
+
 (* non-vacuity: 5 of 100 at 5 % with accept_equal passes; without it does not *)
 Example C16_example_on_threshold :
   sel_eval (SRel (1#20) true) [(1%positive, 5#1); (2%positive, 95#1)]%Q = [2%positive; 1%positive] /\
@@ -82,3 +93,4 @@ Print Assumptions C16_openlist_count.
 Print Assumptions C16_openlist_structure.
 Print Assumptions C16_no_leapfrog.
 Print Assumptions C16_fill.
+Print Assumptions C16_bracketer.
